@@ -100,6 +100,17 @@ class Mode:
             chars.append(["a", "\u00e9", "\u20ac", "\U0001d11e"][k])
         return "".join(chars)
 
+    def sstr(self, name, cap, lo=1, hi=127, small=None):
+        """an arbitrary str of at most `cap` characters, each in lo..hi (ASCII); character-level symbolic"""
+        if self.sym:
+            from .symex.sstr import SStr
+            v = SStr.fresh(name, cap, lo, hi)
+            if small is not None:
+                self.small.append(v.n <= small)
+            return v
+        n = int(self.values[name + ".len"])
+        return "".join(chr(int(self.values[f"{name}[{i}]"])) for i in range(n))
+
     def choice(self, name, lo, hi):
         """a concrete int in [lo, hi]; the engine forks over every value"""
         v = self.int(name, lo, hi)
